@@ -198,6 +198,12 @@ def stage1(pid, repo, tier, plan, update=False):
     return reg, E_, funcs, obs, undecided, solver_wall
 
 
+MAX_RSS_MB = 8000
+# properties whose subject is the iteration pipeline (termination, laziness,
+# exactly-once, order, selection): unbounded memory there is the violation
+ITERATION_PROPS = {"C02", "C03", "C07", "C12", "C13", "C14", "C19"}
+
+
 def run_concrete(pid, repo, tier, seed, cexfile=None, timeout=3000):
     script = os.path.join(ROOT, "harness", "concrete.py")
     if not os.path.exists(script):
@@ -215,14 +221,64 @@ def run_concrete(pid, repo, tier, seed, cexfile=None, timeout=3000):
            str(seed), "--out", out]
     if cexfile:
         cmd += ["--cex", cexfile]
-    try:
-        p = subprocess.run(cmd, env=env, capture_output=True, text=True,
-                           timeout=timeout, cwd=ROOT)
-    except subprocess.TimeoutExpired:
-        return {"results": [], "error": "concrete stage timed out"}
+    # The harness inputs are tiny (the unchanged tree stays well under 2 GB):
+    # resident memory beyond MAX_RSS_MB means some iteration that has to be
+    # lazy or finite is not.  Watch it, so that such a tree is reported
+    # instead of taking the machine (and this checker) down.
+    import tempfile
+    errf = tempfile.TemporaryFile("w+")
+    p = subprocess.Popen(cmd, env=env, stdout=subprocess.DEVNULL, stderr=errf,
+                         text=True, cwd=ROOT, start_new_session=True)
+    end = time.time() + timeout
+    killed = None
+    while p.poll() is None:
+        time.sleep(0.1)
+        rss = 0
+        try:
+            with open(f"/proc/{p.pid}/status") as f:
+                for ln in f:
+                    if ln.startswith("VmRSS:"):
+                        rss = int(ln.split()[1]) // 1024
+        except OSError:
+            pass
+        if rss > MAX_RSS_MB:
+            killed = f"resident memory grew beyond {MAX_RSS_MB} MB"
+        elif time.time() > end:
+            killed = f"still running after {timeout} s"
+        if killed:
+            try:
+                os.killpg(p.pid, 9)
+            except OSError:
+                p.kill()
+            p.wait()
+            break
+    errf.seek(0)
+    stderr = errf.read()
+    errf.close()
+    if killed:
+        prog = {"running": None, "results": []}
+        try:
+            with open(out + ".progress") as f:
+                prog = json.load(f)
+        except (OSError, ValueError):
+            pass
+        fn = prog.get("running")
+        if killed.startswith("resident") and fn and pid in ITERATION_PROPS:
+            # a property about iteration: the check that ran fine on the
+            # unchanged tree cannot be completed in bounded memory
+            return {"results": prog.get("results", []) + [{
+                "check": fn, "ok": False, "evaluations": 0,
+                "function": "(iteration pipeline)",
+                "witness": {"outcome": f"the bounded check {fn} was stopped: "
+                            + killed + " (inputs of a few dozen examples; "
+                            "the unchanged tree needs well under 2 GB): an "
+                            "iteration that has to be lazy or finite is not",
+                            "no_failing_input": True}}], "error": None}
+        return {"results": prog.get("results", []),
+                "error": f"concrete stage stopped ({fn}): " + killed}
     if not os.path.exists(out):
         return {"results": [], "error": "concrete stage crashed: " +
-                (p.stderr or "")[-2000:]}
+                (stderr or "")[-2000:]}
     with open(out) as f:
         return json.load(f)
 
@@ -474,7 +530,10 @@ def main(argv=None):
         with open(rp, "w") as f:
             json.dump({"property": pid, "concrete_check": r}, f, indent=1,
                       default=str)
-        lines.append(f"VIOLATION property={pid} replay={rp}")
+        w_ = r.get("witness")
+        sfx = " no-failing-input-found" if isinstance(w_, dict) and w_.get(
+            "no_failing_input") else ""
+        lines.append(f"VIOLATION property={pid} replay={rp}{sfx}")
         violations += 1
         if nrep >= 12:
             break
